@@ -1092,6 +1092,8 @@ class CompositeEnvelope:
             is the value (int)
         """
         self._check_members(states)
+        if any(getattr(s, "measured", False) for s in states):
+            raise ValueError("Given states have already been destructively measured")
         from photon_weave.state.envelope import Envelope
         from photon_weave.state.fock import Fock
         from photon_weave.state.polarization import Polarization
